@@ -36,4 +36,15 @@ Definition proxy_raw (g r : bool) (p : parr) : seq nat :=
 Definition sortable_proxy (g r : bool) (p : parr) : seq nat :=
   let P := proxy_raw g r p in [seq nrank P i | i <- iota 0 (psize p)].
 
+(* ---- argmin / argmax / amin / amax without axis (argmin.py, argmax.py, amin.py, amax.py) ----
+   argmin: numpy.argmin of the ranks; argmax: the ranks of the REVERSED array, reversed back (so that among equal
+   maxima the first occurrence has the highest rank), then numpy.argmax; amin / amax: the element at
+   argsort(ranks)[min(ranks)] resp. [max(ranks)], i.e. the element of rank 0 resp. size-1 *)
+Definition prev (p : parr) : parr := Parr (names p) [:: psize p] (rows p) [seq rev c | c <- cols p].
+Definition pargmin (g r : bool) (p : parr) : nat := index 0%N (sortable_proxy g r p).
+Definition pargmax (g r : bool) (p : parr) : nat :=
+  ((psize p).-1 - index (psize p).-1 (sortable_proxy g r (prev p)))%N.
+Definition pamin_pos (g r : bool) (p : parr) : nat := index 0%N (sortable_proxy g r p).
+Definition pamax_pos (g r : bool) (p : parr) : nat := index (psize p).-1 (sortable_proxy g r p).
+
 End Proxy.
